@@ -5,7 +5,7 @@ CONSTANTS
   FieldSeps = {":", "|", "::"}
   ArraySizes = {0}
   ActiveFns = {"SetFieldSeparator"}
-  ActiveOps = {"query", "upd"}
+  ActiveOps = {"upd"}
   MaxHist = 3
 INVARIANTS Functional OnlyRelevant Emit
 CHECK_DEADLOCK FALSE
